@@ -74,6 +74,10 @@ func genAttempt(t *rapid.T, allowCtxEnd bool) Attempt {
 			a.ReadMs = 1
 		}
 	}
+	if a.Kind == "stream" && stats.Pct(t, "emptyresp") < 6 {
+		// an empty response (the handler returned without writing): the real transport hands out http.NoBody
+		a.Stream, a.Chunks, a.End, a.NoBodyResp = "", nil, "eof", rapid.Bool().Draw(t, "nobodyresp")
+	}
 	if stats.Pct(t, "delay") < 20 {
 		a.DelayMs = 1 + stats.Pick(t, 5, "delayms")
 	}
